@@ -30,6 +30,8 @@ SPEC = {
 
 SPEC['explanation'] += ' T9.plus follows private helpers of parse_qsl. T12.hex: without a decoding table, int(text, 16) must be guarded by a hex-digit test.'
 SPEC['decided'] += []
+SPEC['explanation'] += ' T20.nocache: the functions that build a fresh list / dict / generator per call are not memoised.'
+SPEC['decided'] += ['results are fresh per call (no memoising decorator)']
 MANIFEST = {
     'technique': 'constant-table folding + regex-AST extraction with set-relation checks; syntactic sanitizer-flow (taint) check; typed exception-escape analysis over inlined CFG paths',
     'text': ('Decides, exhaustively over the character x component matrix, that no character emitted raw by a quoting '
@@ -42,6 +44,8 @@ MANIFEST = {
 
 
 def run(ctx):
+    from rules.common import check_not_memoised as _cnm
+    _cnm(ctx, [ctx.program.func(n) for n in ['urlutils.parse_url', 'urlutils.parse_qsl', 'urlutils.find_all_links', 'urlutils.parse_host']])
     urlquote.check_tables(ctx)
     urlquote.check_flow(ctx)
     urlquote.check_escape(ctx)
